@@ -382,7 +382,9 @@ class Analysis:
                     ok = all((not r) or self.upper_bounded(b, R, bi, o, facts) for o, r in zip(ops, raws))
                 if not ok:
                     key = "%s|Overflow(%s)|%s" % (fn, op, ",".join(tstr(o)[:60] for o in ops))
+                    from guards import untested_params
                     self.alarms[key] = {"fn": fn, "where": loc(t["sp"]), "kind": "overflow", "chain": who(),
+                                        "bare": untested_params(b, bi, [o for o, r in zip(ops, raws) if r and strip_casts(o)[0] == "param"]),
                                         "detail": "`%s` on a caller-supplied value that no dominating comparison bounds: debug build panics, release build wraps; operands %s" % (
                                             op, [tstr(o)[:80] for o in ops])}
             elif t["t"] == "assert" and t["kind"] == "BoundsCheck" and not t["exp"]:
@@ -445,6 +447,43 @@ class Analysis:
                             self.alarms[key] = {"fn": fn, "where": loc(t["sp"]), "kind": "unwrap", "chain": who(),
                                                 "detail": "unwrap() of %s called with a caller-supplied unbounded value %s" % (a[1], [tstr(x)[:60] for x in inner_unb])}
         return propagate
+
+    def sink_inventory(self):
+        """Keys of every sink site of the crate (whether or not a raw value reaches it today), in the format of the alarm keys: the
+        reference for "this arithmetic / check / unwrap exists on the pinned tree" (an alarm at such a site is a regression, an alarm
+        at a site that does not exist there is new code the analysis cannot judge)."""
+        out = set()
+        F = self.F
+        for b in F.all_bodies():
+            fn = b.name
+            if "::tests::" in fn or fn.startswith("internal::"):
+                continue
+            for bi in sorted(b.reachable()):
+                t = b.blocks[bi]["term"]
+                if t["t"] == "assert" and t["kind"].startswith("Overflow(") and not t["exp"]:
+                    op = t["kind"][len("Overflow("):-1]
+                    ops = [b.term_of_operand(o) for o in t["ops"]]
+                    out.add("%s|Overflow(%s)|%s" % (fn, op, ",".join(tstr(o)[:60] for o in ops)))
+                elif t["t"] == "assert" and t["kind"] == "BoundsCheck" and not t["exp"]:
+                    out.add("%s|BoundsCheck|%s" % (fn, tstr(b.term_of_operand(t["ops"][1]))[:60]))
+                elif t["t"] == "switch":
+                    targets = [d for _, d in t["targets"]] + [t["otherwise"]]
+                    pan = [d for d in targets if is_panic_call(b.blocks[d]["term"]) or
+                           (b.blocks[d]["term"]["t"] == "goto" and is_panic_call(b.blocks[b.blocks[d]["term"]["target"]]["term"]))]
+                    if pan:
+                        c0 = strip_casts(b.term_of_operand(t["discr"]))
+                        if c0[0] == "bin":
+                            out.add("%s|panic-edge|%s" % (fn, tstr(c0)[:70]))
+                elif t["t"] == "call":
+                    name = callee_name(t)
+                    if t["callee"].get("unsafe", False):
+                        out.add("%s|unsafe-call|%s" % (fn, name))
+                    last = name.split("::")[-1].split("<")[0]
+                    if last in ("unwrap", "expect") and (name.startswith("std::option::Option::<") or name.startswith("std::result::Result::<")) and not t["exp"]:
+                        a = strip_casts(b.term_of_operand(t["args"][0]))
+                        if a[0] == "call" and F.has_body(a[1]):
+                            out.add("%s|unwrap|%s" % (fn, a[1]))
+        return out
 
     def resolve(self, t):
         """Crate-local bodies a call may reach."""
